@@ -33,6 +33,11 @@ def tempo_vs_pt(inp):
     return {'violates': bool(bad), 'detail': bad[:4]}
 
 
+def node_array_operations(inp):
+    from replay.c01 import node_array_operations as f
+    return f(inp)
+
+
 def svd_sweep_parameters(inp):
     from replay.c01 import svd_sweep_parameters as f
     return f(inp)
